@@ -11,7 +11,9 @@ CONSTANTS
   MaxFields = 0
   MaxCont = 0
   MaxTotal = 0
+  ShapeMode = 0
   ArmorHdrs = {}
+  SigBools = {TRUE, FALSE}
   Emit = FALSE
 SPECIFICATION TSpec
 INVARIANT TEofRule
